@@ -25,11 +25,13 @@ import (
 
 // Op is one step of a scenario.
 type Op struct {
-	Kind   string         `json:"kind"`              // "w" sender Write calls | "mv" release all in-flight wire bytes of Dir and let the reader run
+	Kind   string         `json:"kind"`              // "w" sender Write calls | "mv" release all in-flight wire bytes of Dir and let the reader run | "fin" release them and end the direction with a network error
 	Dir    int            `json:"dir"`               // 0 = client→server, 1 = server→client
 	Sizes  []int          `json:"sizes,omitempty"`   // w: Write sizes
 	Chunk  o4pair.Chunker `json:"chunk,omitempty"`   // mv: how the released bytes are cut into network reads
 	ReadSz []int          `json:"read_sz,omitempty"` // mv: cycle of Read buffer sizes at the receiver
+	End    string         `json:"end,omitempty"`     // fin: eof | other (reset) | timeout
+	Joint  bool           `json:"joint,omitempty"`   // fin: the LAST chunk and the error are returned by the same underlying Read (n > 0, err != nil)
 }
 
 // Case is one connection scenario; everything random is fixed by it.
@@ -222,8 +224,12 @@ func (x *runner) runCase(c Case) (v *verdict, skipped bool, stats map[string]int
 
 	var inflight [2][]byte
 	var released [2]int
+	var finished [2]bool
 	for i, op := range c.Ops {
 		where := fmt.Sprintf("op%d", i)
+		if finished[op.Dir] {
+			continue
+		}
 		switch op.Kind {
 		case "w":
 			for _, n := range op.Sizes {
@@ -264,11 +270,88 @@ func (x *runner) runCase(c Case) (v *verdict, skipped bool, stats map[string]int
 			if len(sizes) > 1 {
 				stats["split-releases"]++
 			}
+		case "fin":
+			// the peer wrote (everything still in flight) and closed / the connection broke:
+			// the last network read may carry bytes AND the error
+			if finished[op.Dir] {
+				continue
+			}
+			finished[op.Dir] = true
+			wire := inflight[op.Dir]
+			inflight[op.Dir] = nil
+			bounds := tie.bounds(op.Dir, released[op.Dir], wire)
+			sizes := op.Chunk.Split(len(wire), bounds)
+			released[op.Dir] += len(wire)
+			end := op.End
+			if end == "" {
+				end = "eof"
+			}
+			if op.Joint && len(sizes) > 0 {
+				last := sizes[len(sizes)-1]
+				cut := len(wire) - last
+				pr.Deliver(op.Dir, wire[:cut], sizes[:len(sizes)-1])
+				tie.deliver(op.Dir, wire[:cut], sizes[:len(sizes)-1])
+				pr.FailWith(op.Dir, wire[cut:], end)
+				tie.failWith(op.Dir, wire[cut:], end)
+				stats["joint-data+error"]++
+			} else {
+				pr.Deliver(op.Dir, wire, sizes)
+				tie.deliver(op.Dir, wire, sizes)
+				pr.Fail(op.Dir, end)
+				tie.failWith(op.Dir, nil, end)
+			}
+			rd := pr.Reader(op.Dir)
+			nx := nextRead(op.Dir, op.ReadSz)
+			blocked := rd.Drain(nx)
+			dn := o4pair.DirName(op.Dir)
+			want := written[op.Dir]
+			switch {
+			case rd.Panic != nil:
+				return &verdict{"panic-in-read", fmt.Sprintf("%s %s: Read panicked at the end of the stream: %v", where, dn, rd.Panic)}, false, stats
+			case rd.Stuck || blocked || rd.Err == nil:
+				return &verdict{"no-error-at-close", fmt.Sprintf("%s %s: the network reported %s but Read blocked/stuck (blocked=%v stuck=%v)", where, dn, end, blocked, rd.Stuck)}, false, stats
+			case !bytes.HasPrefix(want, rd.Got):
+				return &verdict{"stream-corrupted", fmt.Sprintf("%s %s: delivered %d bytes that are not a prefix of the %d written", where, dn, len(rd.Got), len(want))}, false, stats
+			case o4pair.ErrClass(rd.Err) != "net:"+end:
+				return &verdict{"wrong-error-at-close", fmt.Sprintf("%s %s: honest stream ended with %s, Read reported %v after %d of %d bytes", where, dn, end, rd.Err, len(rd.Got), len(want))}, false, stats
+			}
+			// a model disagreement is held back: the S oracle below may exhibit a concrete loss
+			tv := tie.afterDrain(op.Dir, where, blocked)
+			atErr, errBuf := len(rd.Got), rd.ErrBuf
+			if atErr == len(want) {
+				stats["close:all-bytes-before-error"]++
+			} else {
+				// Read handed over at most len(buf) bytes together with the error; the rest must
+				// still be readable: a caller that keeps reading loses nothing
+				stats["close:error-reported-with-payload-still-buffered"]++
+				for k := 0; k < 1+2*(len(want)-atErr) && len(rd.Got) < len(want); k++ {
+					before := len(rd.Got)
+					rd.Resume()
+					rd.Drain(nx)
+					if rd.Panic != nil || rd.Stuck || len(rd.Got) == before {
+						break
+					}
+				}
+			}
+			switch {
+			case !bytes.HasPrefix(want, rd.Got) || len(rd.Got) > len(want):
+				return &verdict{"stream-corrupted", fmt.Sprintf("%s %s: after the close %d bytes delivered, %d written, not a prefix", where, dn, len(rd.Got), len(want))}, false, stats
+			case len(rd.Got) < len(want):
+				return &verdict{"bytes-lost-at-close", fmt.Sprintf("%s %s: the peer wrote %d bytes before the connection ended (%s, last network read carried %d bytes together with the error: %v); only %d were ever delivered, even to a caller that keeps reading after the error",
+					where, dn, len(want), end, lastLen(op, sizes), op.Joint, len(rd.Got))}, false, stats
+			case atErr < len(want) && errBuf >= 32768:
+				// the relay copies with a 32 KiB buffer and stops at the first error
+				return &verdict{"bytes-lost-at-close-for-relay", fmt.Sprintf("%s %s: the Read that reported the error had a %d-byte buffer (>= 32 KiB, what the relay uses), yet only %d of %d bytes were delivered before/with the error %v", where, dn, errBuf, atErr, len(want), rd.Errs)}, false, stats
+			}
+			if tv != nil {
+				return tv, false, stats
+			}
+			stats["closes"]++
 		}
 	}
 	// nothing may be invented: both readers are (or become) blocked with exactly the written bytes
 	for dir := 0; dir < 2; dir++ {
-		if len(inflight[dir]) > 0 {
+		if len(inflight[dir]) > 0 || finished[dir] {
 			continue
 		}
 		blocked := pr.Reader(dir).Drain(nextRead(dir, []int{4096}))
@@ -281,6 +364,34 @@ func (x *runner) runCase(c Case) (v *verdict, skipped bool, stats map[string]int
 	}
 	stats["bytes"] = len(written[0]) + len(written[1])
 	return nil, false, stats
+}
+
+func lastLen(op Op, sizes []int) int {
+	if !op.Joint || len(sizes) == 0 {
+		return 0
+	}
+	return sizes[len(sizes)-1]
+}
+
+// addFin appends the end of one or both directions: a last burst, then the network error,
+// mostly in the same underlying Read as the last chunk.
+func addFin(rng *vlib.Rng, c *Case, prob int) {
+	if rng.Intn(100) >= prob {
+		return
+	}
+	dirs := []int{rng.Intn(2)}
+	if rng.Intn(3) == 0 {
+		dirs = append(dirs, 1-dirs[0])
+	}
+	for _, d := range dirs {
+		sz := pickSizes(rng, c.P.IAT, 2)
+		if c.P.IAT == 0 && rng.Intn(4) == 0 {
+			sz = []int{vlib.Pick(rng, []int{1, 17, 1427, 1428, 5000, 30000, 65536})}
+		}
+		c.Ops = append(c.Ops, Op{Kind: "w", Dir: d, Sizes: sz},
+			Op{Kind: "fin", Dir: d, Chunk: pickChunker(rng, sum(sz)), ReadSz: pickReads(rng, sum(sz)),
+				End: vlib.Pick(rng, []string{"eof", "eof", "other", "timeout"}), Joint: rng.Intn(4) != 0})
+	}
 }
 
 // ---------------------------------------------------------------- generators
@@ -391,6 +502,7 @@ func genCoalesced(rng *vlib.Rng, i int) Case {
 		c.Ops = append(c.Ops, Op{Kind: "w", Dir: dir, Sizes: sz},
 			Op{Kind: "mv", Dir: dir, Chunk: pickChunker(rng, sum(sz)), ReadSz: pickReads(rng, sum(sz))})
 	}
+	addFin(rng, &c, 50)
 	return c
 }
 
@@ -433,6 +545,7 @@ func genRandom(rng *vlib.Rng, i int) Case {
 			c.Ops = append(c.Ops, Op{Kind: "mv", Dir: d, Chunk: pickChunker(rng, pendingBytes[d]), ReadSz: pickReads(rng, pendingBytes[d])})
 		}
 	}
+	addFin(rng, &c, 60)
 	return c
 }
 
@@ -465,6 +578,7 @@ func genBoundary(rng *vlib.Rng, i int, iat int) Case {
 				Op{Kind: "mv", Dir: dir, Chunk: o4pair.Chunker{Kind: "bounds", N: delta}, ReadSz: pickReads(rng, sum(sz))})
 		}
 	}
+	addFin(rng, &c, 60)
 	return c
 }
 
@@ -495,7 +609,7 @@ func (a *agg) evaluate(cases []Case, origin string) {
 		var o Outcome
 		if err := json.Unmarshal(out, &o); err == nil && o.WorkerError == "timeout" {
 			// real IAT sleeps with a pathological length table: not a verdict about the property
-			a.r.Count("skipped", "case-abandoned-after-300s")
+			a.r.Count("skipped", "case-abandoned-after-150s")
 			fmt.Fprintf(os.Stderr, "case %s abandoned after the job timeout\n", cases[i].Name)
 			if a.r.ReplayDir != "" {
 				os.MkdirAll(a.r.ReplayDir, 0o755)
@@ -553,6 +667,9 @@ func (a *agg) record(o Outcome) {
 				r.Count("write-size", sizeClassName(n))
 			}
 		} else {
+			if op.Kind == "fin" {
+				r.Count("close", fmt.Sprintf("%s joint=%v", op.End, op.Joint))
+			}
 			r.Count("chunker", op.Chunk.Kind)
 			for _, n := range op.ReadSz {
 				r.Count("read-size", fmt.Sprint(n))
@@ -561,6 +678,11 @@ func (a *agg) record(o Outcome) {
 	}
 	for _, n := range c.Early {
 		r.Count("write-size", sizeClassName(n))
+	}
+	for _, k := range []string{"close:all-bytes-before-error", "close:error-reported-with-payload-still-buffered"} {
+		for i := 0; i < st[k]; i++ {
+			r.Count("close-outcome", k[6:])
+		}
 	}
 	r.Sample(5, map[string]interface{}{"case": c.Name, "iat": c.P.IAT, "early": c.Early, "resp_chunks": c.Resp.String(), "ops": len(c.Ops), "stats": st})
 	if v != nil {
